@@ -263,6 +263,20 @@ _ADD_LEVEL7 = {
 }
 for _k, _v in _ADD_LEVEL7.items():
     LEVEL[_k] = LEVEL[_k] + _v
+_ADD_LEVEL8 = {
+    "C02": " Added: create_compound_file() (which deletes the loose files it packs) is applied only to the writer's own unpublished "
+           "segment; the clean-up pattern of an index does not match the files of an index whose name extends it (also run for C03).",
+    "C08": " Added: the default a field type hands to its column is a value of the column's own (converted) domain; in add_document every "
+           "conversion of a user value precedes every effect on the pool and the per-document writer (a known finding: it does not).",
+    "C10": " Added: a parameter that some call site fills with a generator is stored in long-lived state only after it has been "
+           "materialised (also run for C08, C18).",
+    "C11": " Added: reset() rewinds every sub-matcher the cursor moves advance; every write of MultiMatcher's segment cursor is followed by "
+           "_next_matcher() before the method returns (also run for C01, C06).",
+    "C13": " Added: the decimal scaling of prepare_number is undone arithmetically (division by the same power of ten), not by cutting the "
+           "digit string (also run for C08).",
+}
+for _k, _v in _ADD_LEVEL8.items():
+    LEVEL[_k] = LEVEL[_k] + _v
 for _k in list(LEVEL):
     LEVEL[_k] = LEVEL[_k] + (" Generic families over the property's anchor files: G1 no argument bound to the slot of another, same-named "
                              "parameter of the resolved callee; G2 no parameter dropped on the way to the callee that takes it; G3 no attribute "
@@ -271,10 +285,11 @@ for _k in list(LEVEL):
                              "by a non-zero fallback through `or`; G7 every global name a function reads is bound by its module; G8 the live "
                              "document count is never a bound or table size for document numbers; G9 file/struct bytes are never concatenated with a "
                              "str literal; G10 a get-or-create tests the container it fills; G11 strip() is not used to cut a literal affix; G12 a pure "
-                             "delegation returns what it delegates.")
+                             "delegation returns what it delegates; G13 a number is compared strictly with the next entry of an offsets table "
+                             "(segment ranges are half-open).")
 for _k in list(NOTE):
     NOTE[_k] = NOTE[_k] + (" All rules are invariant under the behaviour-preserving whole-tree transformations of tools/robust.py "
-                           "and silent on the 358 confirmed refactorings under benign/ (one more, benign_open/C097, is a recorded open false alarm) (thorough tier). Independent seeding rounds: an unseen "
-                           "regression was caught in 19/40, 20/60, 23/60, 25/60, 21/60, 21/60 and 24/60 cases before the rules were strengthened; an unseen refactoring "
-                           "raised a false alarm in 27/80, 27/57, 15/60, 15/60, 16/60 and 13/50 cases before the machinery was corrected (DESIGN.md C2, C8, C12, C13, C14, C15). "
+                           "and silent on the 395 confirmed refactorings under benign/ (four more under benign_open/ -- C097, C09A, C10A, C20A -- are recorded open false alarms) (thorough tier). Independent seeding rounds: an unseen "
+                           "regression was caught in 19/40, 20/60, 23/60, 25/60, 21/60, 21/60, 24/60 and 17/40 cases before the rules were strengthened; an unseen refactoring "
+                           "raised a false alarm in 27/80, 27/57, 15/60, 15/60, 16/60, 13/50 and 11/40 cases before the machinery was corrected (DESIGN.md C2, C8, C12, C13, C14, C15, C16). "
                            "The transformations are now 24.")
